@@ -19,6 +19,26 @@ What is proved:
   * `C17_options_jsr_partial`, `C17_options_curly_partial`
                            listed ⇔ routable, when at most one WebService root matches the URL and
                            no If-condition fails
+  * `C17_holds_jsr_partial`, `C17_holds_curly_partial`
+                           `Spec.c17Holds` — the predicate the driver evaluates on every REAL
+                           observation — holds of the observation the MODEL produces
+                           (`Spec.modelObs`: the probes from `route`, the filter's lists, "no route
+                           function ran for OPTIONS" and "other methods untouched" from
+                           `Options.optionsOut`), for every probed method list that contains
+                           OPTIONS and every declared method; same hypotheses (F14, If-conditions;
+                           CurlyRouter: common fragment and normal path — F15, F16, F20), on tables
+                           on which dispatch cannot panic, and no probe IS a panic
+  * `C17_holds_jsr_wire_partial`, `C17_holds_curly_wire_partial`
+                           the same of `Spec.modelObsWire`, whose two lists are DECODED from the
+                           comma-joined header values the way the harness decodes them; forces
+                           "declared methods are tokens" (`C17_wire_witness`: a method `A,B`)
+  * `C17_routable_served`, `C17_405_served`
+                           panics: `Spec.routable` is "status ≠ 404, 405" and a panic has status 500
+                           (model and harness alike), so on a malformed table `C17_405` may call a
+                           method routable whose dispatch panics.  The lemma: where dispatch cannot
+                           panic (the hypotheses of `C02_total`) routable ⇔ a route function runs, or
+                           415, or 406; `C17_405_served` is `C17_405` in that form.  `Spec.routable`
+                           itself is unchanged (the driver's evaluation on real observations too)
 
 Full statement for the OPTIONS filter (FALSE on the current code, finding F14):
   theorem C17_options (hc : computeAllowedMethods E tbl.services req.path = some ms) … :
@@ -30,6 +50,7 @@ that class; outside it (and when no If-condition — user code `computeAllowedMe
 consults — fails: `C17_conds_witness`) the listed methods are exactly the routable ones.
 -/
 import Restful.Lemmas.Allow
+import Restful.Lemmas.AllowHolds
 import Restful.Lemmas.StateShape
 namespace Restful
 namespace Props
@@ -165,6 +186,151 @@ theorem C17_options_curly_partial (E : ReEnv) (tbl : Config) (hwf : Spec.wfCommo
     m ∈ ms ↔ Spec.routable E (Spec.withRouter tbl .curly) req m = true := by
   rw [C17_routable_agrees E tbl hwf hroots hclean req (hpath ▸ hp) m]
   exact C17_options_jsr_partial E (Spec.withRouter tbl .jsr) rfl path ms hc hF14 req hpath hconds m
+
+/-! ### (5) panics -/
+
+/-- **C17 and panics.**  `Spec.routable` is "status ≠ 404, 405" and a model panic has status 500 (so
+    has a real one: the harness records the recover handler's answer).  On every table on which
+    dispatch cannot panic (the hypotheses of `C02_total`) a method is routable exactly when a route
+    function runs for it or it is answered 415 or 406: `Spec.routable` never sees a panic there. -/
+theorem C17_routable_served (E : ReEnv) (cfg : Config) (hwf : cfg.wfTemplates = true)
+    (hrootsJ : cfg.router = .jsr → Jsr.rootsRead cfg = true)
+    (hrootsC : cfg.router = .curly → Curly.rootsRead cfg = true) (req : Req) (m : Str) :
+    Spec.routable E cfg req m = true ↔
+      ((∃ s r ps, route E cfg { req with method := m } = .selected s r ps) ∨
+        route E cfg { req with method := m } = .error 415 none ∨
+        route E cfg { req with method := m } = .error 406 none) :=
+  Allow.routable_iff_served E cfg req m (C02_total E cfg hwf hrootsJ hrootsC _)
+
+/-- `C17_405` on tables on which dispatch cannot panic: the Allow list of a 405 is exactly the set of
+    methods for which a route function runs or the answer is 415 or 406 -/
+theorem C17_405_served (E : ReEnv) (cfg : Config) (hwf : cfg.wfTemplates = true)
+    (hrootsJ : cfg.router = .jsr → Jsr.rootsRead cfg = true)
+    (hrootsC : cfg.router = .curly → Curly.rootsRead cfg = true) (req : Req) (allow : List Str)
+    (h : route E cfg req = .error 405 (some allow)) (m : Str) :
+    m ∈ allow ↔
+      ((∃ s r ps, route E cfg { req with method := m } = .selected s r ps) ∨
+        route E cfg { req with method := m } = .error 415 none ∨
+        route E cfg { req with method := m } = .error 406 none) :=
+  (C17_405 E cfg req allow h m).trans (C17_routable_served E cfg hwf hrootsJ hrootsC req m)
+
+/-- a 405 never comes without its Allow list (both routers, every table, every request) -/
+theorem C17_405_has_allow (E : ReEnv) (cfg : Config) (req : Req) (a : Option (List Str))
+    (h : route E cfg req = .error 405 a) : ∃ al, a = some al :=
+  Allow.route_405_some E cfg req a h
+
+/-! ### (6) the driver's predicate on the model's observation
+
+`Spec.modelObs E tbl req methods` (Spec/Options.lean) is the record the harness would send if the
+implementation were the model: `probes` = `Spec.probeOf` of every method (status by `Spec.statusOf`,
+the Allow list of a 405) — exactly the `(p …)` items `Driver/Options.lean` prints; `optAllow`,
+`optACAM` = the list `Options.optionsOut` joins into the two headers of its OPTIONS answer;
+`optHandlerRan` = "the filter passed OPTIONS on and a route was selected"; `othersUntouched` = "for
+every other probed method the filter returned `⟨[], true⟩`".  What the filter model returns in the
+two cases is `C17_filter_options` / `C17_filter_other` (`Spec.filtered E tbl req m` is
+`Options.optionsOut E tbl ⟨m, req.path, [], []⟩` by definition), so the last two fields COMPUTE to
+`false` and `true` (`Allow.modelObs_eq`).
+
+Two hypotheses come with the observation, not with the code: OPTIONS is probed (else the harness
+never asks the filter and both lists stay empty), and every declared method is probed (`c17Holds`
+requires every listed method to be a probed one; the harness probes a fixed list that contains
+every method its generator declares). -/
+
+/-- **C17 as the driver evaluates it, RouterJSR311** (partial: F14).  Hypotheses: the table is one on
+    which dispatch cannot panic (`C02_total`: `wfTemplates`, `Jsr.rootsRead`) — which also makes
+    `computeAllowedMethods` answer —, at most one root matches the URL, the If-conditions hold.
+    Tail wildcards and regex variables are allowed (F20 concerns CurlyRouter).  Conclusion: the
+    predicate holds of the model's observation, and no probe is a panic (status 500). -/
+theorem C17_holds_jsr_partial (E : ReEnv) (tbl : Config) (hk : tbl.router = .jsr)
+    (hwf : tbl.wfTemplates = true) (hroots : Jsr.rootsRead tbl = true)
+    (req : Req) (hF14 : Spec.severalRootsMatch E tbl req.path = false)
+    (hconds : ∀ s ∈ tbl.services, ∀ r ∈ s.built, passesConds r req = true)
+    (methods : List Str) (hO : Cors.sOPTIONS ∈ methods)
+    (hcover : ∀ s ∈ tbl.services, ∀ rd ∈ s.routes, rd.method ∈ methods) :
+    Spec.c17Holds (Spec.modelObs E tbl req methods) = true ∧
+    ∀ p ∈ (Spec.modelObs E tbl req methods).probes, p.2.1 ∈ [200, 404, 405, 415, 406] := by
+  obtain ⟨ms, hc⟩ := Allow.computed_of_wf_jsr E tbl hk hwf hroots req.path
+  refine ⟨Allow.c17Holds_modelObs E tbl req methods ms hO hc
+    (fun m => C17_options_jsr_partial E tbl hk req.path ms hc hF14 req rfl hconds m) ?_, ?_⟩
+  · intro m hm
+    obtain ⟨s, hs, rd, hrd, rfl⟩ := Allow.computed_declared E tbl.services req.path ms hc m hm
+    exact hcover s hs rd hrd
+  · intro p hp
+    obtain ⟨m, _, rfl⟩ := List.mem_map.mp hp
+    exact Allow.probe_status E tbl req m
+      (C02_total E tbl hwf (fun _ => hroots) (fun h => by rw [hk] at h; cases h) _)
+
+/-- **C17 as the driver evaluates it, CurlyRouter** (partial: F14; F15/F16 — normal path; F20 — the
+    common fragment has no tail wildcard).  Exactly the hypotheses of `C17_options_curly_partial`;
+    the common fragment lies inside the hypotheses of `C02_total`, so no probe is a panic. -/
+theorem C17_holds_curly_partial (E : ReEnv) (tbl : Config) (hwf : Spec.wfCommon tbl = true)
+    (hroots : Spec.rootsDistinct tbl = true) (hclean : Spec.rootsClean tbl = true)
+    (req : Req) (hp : Spec.normalPath req.path = true)
+    (hF14 : Spec.severalRootsMatch E tbl req.path = false)
+    (hconds : ∀ s ∈ tbl.services, ∀ r ∈ s.built, passesConds r req = true)
+    (methods : List Str) (hO : Cors.sOPTIONS ∈ methods)
+    (hcover : ∀ s ∈ tbl.services, ∀ rd ∈ s.routes, rd.method ∈ methods) :
+    Spec.c17Holds (Spec.modelObs E (Spec.withRouter tbl .curly) req methods) = true ∧
+    ∀ p ∈ (Spec.modelObs E (Spec.withRouter tbl .curly) req methods).probes, p.2.1 ∈ [200, 404, 405, 415, 406] := by
+  obtain ⟨ms, hc⟩ := Allow.computed_of_wfCommon E tbl hwf hclean req.path
+  refine ⟨Allow.c17Holds_modelObs E (Spec.withRouter tbl .curly) req methods ms hO hc
+    (fun m => C17_options_curly_partial E tbl hwf hroots hclean req.path hp ms hc hF14 req rfl hconds m) ?_, ?_⟩
+  · intro m hm
+    obtain ⟨s, hs, rd, hrd, rfl⟩ := Allow.computed_declared E tbl.services req.path ms hc m hm
+    exact hcover s hs rd hrd
+  · intro p hp'
+    obtain ⟨m, _, rfl⟩ := List.mem_map.mp hp'
+    exact Allow.probe_status E _ req m (Allow.no_panic_wfCommon_curly E tbl hwf hclean _)
+
+/-- what the filter model contributes to the observation: on OPTIONS it answers itself with the two
+    headers carrying the comma-joined lists of `modelObs`, for every other probed method it adds
+    nothing and passes on — so the fields `optHandlerRan` / `othersUntouched` are computed, not assumed -/
+theorem C17_modelObs_filter (E : ReEnv) (tbl : Config) (req : Req) (methods ms : List Str)
+    (hO : Cors.sOPTIONS ∈ methods) (hc : Cors.computeAllowedMethods E tbl.services req.path = some ms) :
+    let o := Spec.modelObs E tbl req methods
+    Options.optionsOut E tbl { method := Cors.sOPTIONS, path := req.path } = some
+      ⟨[("Allow".toList, Str.join Cors.sComma o.optAllow), (Cors.hAllowOrigin, []), (Cors.hAllowHeaders, []),
+        (Cors.hAllowMethods, Str.join Cors.sComma o.optACAM)], false⟩ ∧
+    (∀ m, m ≠ Cors.sOPTIONS → Options.optionsOut E tbl { method := m, path := req.path } = some ⟨[], true⟩) ∧
+    o.optHandlerRan = false ∧ o.othersUntouched = true := by
+  simp only [Allow.modelObs_eq E tbl req methods ms hO hc]
+  exact ⟨Allow.filtered_options E tbl req ms hc, fun m hm => Allow.filtered_other E tbl req m hm, trivial, trivial⟩
+
+/-! #### the same with the lists decoded from the header values
+
+Full statement (FALSE: `C17_wire_witness`): `C17_holds_*_partial` with `Spec.modelObsWire`.  A declared
+method that is not a token (contains a comma, a space at an end, or is empty) does not survive
+`strings.Join(…, ",")` followed by the reader's split: the header then names other methods than the
+table declares.  `Spec.methodToken` of every declared method is the hypothesis the proof forces. -/
+
+theorem C17_holds_jsr_wire_partial (E : ReEnv) (tbl : Config) (hk : tbl.router = .jsr)
+    (hwf : tbl.wfTemplates = true) (hroots : Jsr.rootsRead tbl = true)
+    (req : Req) (hF14 : Spec.severalRootsMatch E tbl req.path = false)
+    (hconds : ∀ s ∈ tbl.services, ∀ r ∈ s.built, passesConds r req = true)
+    (methods : List Str) (hO : Cors.sOPTIONS ∈ methods)
+    (hcover : ∀ s ∈ tbl.services, ∀ rd ∈ s.routes, rd.method ∈ methods)
+    (htok : ∀ s ∈ tbl.services, ∀ rd ∈ s.routes, Spec.methodToken rd.method = true) :
+    Spec.c17Holds (Spec.modelObsWire E tbl req methods) = true := by
+  obtain ⟨ms, hc⟩ := Allow.computed_of_wf_jsr E tbl hk hwf hroots req.path
+  rw [Allow.modelObsWire_eq E tbl req methods ms hO hc (fun m hm => by
+    obtain ⟨s, hs, rd, hrd, rfl⟩ := Allow.computed_declared E tbl.services req.path ms hc m hm
+    exact htok s hs rd hrd)]
+  exact (C17_holds_jsr_partial E tbl hk hwf hroots req hF14 hconds methods hO hcover).1
+
+theorem C17_holds_curly_wire_partial (E : ReEnv) (tbl : Config) (hwf : Spec.wfCommon tbl = true)
+    (hroots : Spec.rootsDistinct tbl = true) (hclean : Spec.rootsClean tbl = true)
+    (req : Req) (hp : Spec.normalPath req.path = true)
+    (hF14 : Spec.severalRootsMatch E tbl req.path = false)
+    (hconds : ∀ s ∈ tbl.services, ∀ r ∈ s.built, passesConds r req = true)
+    (methods : List Str) (hO : Cors.sOPTIONS ∈ methods)
+    (hcover : ∀ s ∈ tbl.services, ∀ rd ∈ s.routes, rd.method ∈ methods)
+    (htok : ∀ s ∈ tbl.services, ∀ rd ∈ s.routes, Spec.methodToken rd.method = true) :
+    Spec.c17Holds (Spec.modelObsWire E (Spec.withRouter tbl .curly) req methods) = true := by
+  obtain ⟨ms, hc⟩ := Allow.computed_of_wfCommon E tbl hwf hclean req.path
+  rw [Allow.modelObsWire_eq E (Spec.withRouter tbl .curly) req methods ms hO hc (fun m hm => by
+    obtain ⟨s, hs, rd, hrd, rfl⟩ := Allow.computed_declared E tbl.services req.path ms hc m hm
+    exact htok s hs rd hrd)]
+  exact (C17_holds_curly_partial E tbl hwf hroots hclean req hp hF14 hconds methods hO hcover).1
 
 /-! The frame condition (Lemmas/StateShape.lean): the code has exactly the state this property's model
     accounts for — no further package-level variable, struct type or field; constants as modelled. -/
@@ -331,10 +497,10 @@ example :
   decide
 
 /-! `Spec.c17Holds` (Spec/Options.lean) is the predicate the driver evaluates on every REAL observation
-of C17, but no theorem of this file is stated with it (see the audit report).  What can be added
-without a new theorem: on the observation the MODEL amounts to at `/r/x/7` — five probed methods,
-the OPTIONS filter's two lists — the predicate holds under both routers, and it is falsified by
-wrong observations. -/
+of C17; `C17_holds_jsr_partial` / `C17_holds_curly_partial` conclude it for the model's observation
+`Spec.modelObs` (instantiated in `Restful.C17Holds` below).  Here, by evaluation: on the observation
+the MODEL amounts to at `/r/x/7` — five probed methods, the OPTIONS filter's two lists — the
+predicate holds under both routers, and it is falsified by wrong observations. -/
 
 def methods2 : List String := ["GET", "POST", "PUT", "DELETE", "OPTIONS"]
 
@@ -369,3 +535,138 @@ example :
   decide
 
 end Restful.C17Audit
+
+/-! ### `Spec.c17Holds` on the model's observation: non-vacuity, and the witnesses for the hypotheses -/
+namespace Restful.C17Holds
+open Restful.Props Restful.C17Witness Restful.C17Audit
+
+/-- the probed methods: GET, POST, PUT, DELETE, OPTIONS — every method `tbl2` declares, and OPTIONS -/
+def probed : List Str := methods2.map String.toList
+
+/-- `Spec.modelObs` at `/r/x/7` on the two-service table IS the hand-written `obs2` (GET, POST run a
+    route function, PUT — routed at `/s/x/7` only —, DELETE and OPTIONS are 405 with Allow GET, POST;
+    the filter lists GET, POST, runs no route function, leaves the others alone), and so is the
+    observation decoded from the header values -/
+example :
+    Spec.modelObs E0 (tbl2 .jsr) put2 probed = obs2 .jsr ∧ Spec.modelObs E0 (tbl2 .curly) put2 probed = obs2 .curly ∧
+    Spec.modelObsWire E0 (tbl2 .jsr) put2 probed = obs2 .jsr ∧ Spec.modelObsWire E0 (tbl2 .curly) put2 probed = obs2 .curly ∧
+    (obs2 .jsr).probes = [("GET".toList, 200, none), ("POST".toList, 200, none), ("PUT".toList, 405, some ms2),
+      ("DELETE".toList, 405, some ms2), ("OPTIONS".toList, 405, some ms2)] := by
+  decide
+
+/-- every hypothesis of the four theorems holds of that instance -/
+example :
+    (tbl2 .jsr).wfTemplates = true ∧ Jsr.rootsRead (tbl2 .jsr) = true ∧
+    Spec.wfCommon (tbl2 .jsr) = true ∧ Spec.rootsDistinct (tbl2 .jsr) = true ∧ Spec.rootsClean (tbl2 .jsr) = true ∧
+    Spec.normalPath put2.path = true ∧ Spec.severalRootsMatch E0 (tbl2 .jsr) put2.path = false ∧
+    (∀ s ∈ (tbl2 .jsr).services, ∀ r ∈ s.built, passesConds r put2 = true) ∧
+    Cors.sOPTIONS ∈ probed ∧ (∀ s ∈ (tbl2 .jsr).services, ∀ rd ∈ s.routes, rd.method ∈ probed) ∧
+    (∀ s ∈ (tbl2 .jsr).services, ∀ rd ∈ s.routes, Spec.methodToken rd.method = true) := by
+  decide
+
+/-- `C17_holds_jsr_partial`, `C17_holds_curly_partial`, `C17_holds_*_wire_partial`, `C17_modelObs_filter` -/
+example : Spec.c17Holds (Spec.modelObs E0 (tbl2 .jsr) put2 probed) = true :=
+  (C17_holds_jsr_partial E0 (tbl2 .jsr) rfl (by decide) (by decide) put2 (by decide) (by decide) probed (by decide)
+    (by decide)).1
+example : Spec.c17Holds (Spec.modelObs E0 (Spec.withRouter (tbl2 .jsr) .curly) put2 probed) = true :=
+  (C17_holds_curly_partial E0 (tbl2 .jsr) (by decide) (by decide) (by decide) put2 (by decide) (by decide) (by decide)
+    probed (by decide) (by decide)).1
+example : Spec.c17Holds (Spec.modelObsWire E0 (tbl2 .jsr) put2 probed) = true :=
+  C17_holds_jsr_wire_partial E0 (tbl2 .jsr) rfl (by decide) (by decide) put2 (by decide) (by decide) probed (by decide)
+    (by decide) (by decide)
+example : Spec.c17Holds (Spec.modelObsWire E0 (Spec.withRouter (tbl2 .jsr) .curly) put2 probed) = true :=
+  C17_holds_curly_wire_partial E0 (tbl2 .jsr) (by decide) (by decide) (by decide) put2 (by decide) (by decide) (by decide)
+    probed (by decide) (by decide) (by decide)
+example := C17_modelObs_filter E0 (tbl2 .jsr) put2 probed ms2 (by decide) (by decide)
+
+/-- the predicate is falsified by wrong observations: the filter lists a method that is answered 405
+    (PUT) / misses a routable one (POST) / the two headers differ / a route function ran for OPTIONS /
+    another method was touched / a 405 whose Allow list misses POST; and by the model's own
+    observation when a declared method (DELETE, say) is not among the probed ones — the reason for
+    `hcover` — or OPTIONS is not (the filter is never asked, both lists stay empty: `hO`) -/
+example :
+    let o := Spec.modelObs E0 (tbl2 .jsr) put2 probed
+    Spec.c17Holds o = true ∧
+    Spec.c17Holds { o with optAllow := ms2 ++ ["PUT".toList], optACAM := ms2 ++ ["PUT".toList] } = false ∧
+    Spec.c17Holds { o with optAllow := ["GET".toList], optACAM := ["GET".toList] } = false ∧
+    Spec.c17Holds { o with optACAM := ["GET".toList] } = false ∧
+    Spec.c17Holds { o with optHandlerRan := true } = false ∧
+    Spec.c17Holds { o with othersUntouched := false } = false ∧
+    Spec.c17Holds { o with probes := o.probes.map (fun p =>
+      if p.1 = "PUT".toList then (p.1, 405, some ["GET".toList]) else p) } = false ∧
+    Spec.c17Holds (Spec.modelObs E0 (tbl2 .jsr) { put2 with path := "/r/y".toList }
+      ["GET".toList, "POST".toList, "OPTIONS".toList]) = false ∧
+    Spec.c17Holds (Spec.modelObs E0 (tbl2 .jsr) put2 ["GET".toList, "POST".toList, "PUT".toList]) = false := by
+  decide
+
+/-- `C17_routable_served`, `C17_405_served`, `C17_405_has_allow` on the same instance: no method is
+    "routable" by way of a panic — POST runs route 1 of service 0, PUT is a 405 -/
+example (m : Str) := C17_routable_served E0 (tbl2 .curly) (by decide) (fun h => by cases h) (fun _ => by decide) put2 m
+example (m : Str) := C17_405_served E0 (tbl2 .jsr) (by decide) (fun _ => by decide) (fun h => by cases h) put2 ms2 (by decide) m
+example := C17_405_has_allow E0 (tbl2 .jsr) put2 (some ms2) (by decide)
+example :
+    route E0 (tbl2 .curly) { put2 with method := "POST".toList } = .selected 0 1 [("id".toList, "7".toList)] ∧
+    Spec.routable E0 (tbl2 .curly) put2 "POST".toList = true ∧ Spec.routable E0 (tbl2 .curly) put2 "PUT".toList = false := by
+  decide
+
+/-- why `C17_routable_served` has hypotheses: on a table outside the grammar (`/{a:` as the root of
+    a route-less service, `C02_roots_witness`) every dispatch is a model panic, and `Spec.routable`
+    calls every method routable -/
+theorem C17_panic_witness :
+    let cfg : Config := { router := .jsr, services := [{ id := 0, root := "/{a:".toList, routes := [] }] }
+    let req : Req := { method := "GET".toList, path := "/x".toList }
+    cfg.wfTemplates = true ∧ Jsr.rootsRead cfg = false ∧
+    route E0 cfg req = .panic "jsr.compile" ∧ Spec.routable E0 cfg req "GET".toList = true ∧
+    (Spec.probeOf E0 cfg req "GET".toList).2.1 = 500 := by
+  decide
+
+/-- a declared method that is not a token: `A,B`.  Every hypothesis of `C17_holds_*_partial` holds
+    and the predicate holds of `modelObs`; the header value `A,B` decodes to the two methods A and
+    B, which nobody declared or probed: `c17Holds` fails of `modelObsWire` under both routers.
+    Only `Spec.methodToken` fails of `C17_holds_*_wire_partial`. -/
+def tblComma (k : RouterKind) : Config :=
+  { router := k, services := [{ id := 0, root := "/r".toList, routes := [rt 0 "A,B" "/x"] }] }
+
+theorem C17_wire_witness :
+    let req : Req := { method := "OPTIONS".toList, path := "/r/x".toList }
+    let ms : List Str := ["A,B".toList, "OPTIONS".toList]
+    (tblComma .jsr).wfTemplates = true ∧ Jsr.rootsRead (tblComma .jsr) = true ∧ Spec.wfCommon (tblComma .jsr) = true ∧
+    Spec.rootsDistinct (tblComma .jsr) = true ∧ Spec.rootsClean (tblComma .jsr) = true ∧ Spec.normalPath req.path = true ∧
+    Spec.severalRootsMatch E0 (tblComma .jsr) req.path = false ∧
+    (∀ s ∈ (tblComma .jsr).services, ∀ rd ∈ s.routes, rd.method ∈ ms) ∧
+    Spec.methodToken "A,B".toList = false ∧
+    Spec.c17Holds (Spec.modelObs E0 (tblComma .jsr) req ms) = true ∧
+    Spec.c17Holds (Spec.modelObs E0 (tblComma .curly) req ms) = true ∧
+    (Spec.modelObsWire E0 (tblComma .jsr) req ms).optAllow = ["A".toList, "B".toList] ∧
+    Spec.c17Holds (Spec.modelObsWire E0 (tblComma .jsr) req ms) = false ∧
+    Spec.c17Holds (Spec.modelObsWire E0 (tblComma .curly) req ms) = false := by
+  decide
+
+/-- **F20 on the driver's predicate** (the table of `C14_options_wildcard_witness`): root `/a` with
+    `GET /{t:*}`, URL `/a/`.  CurlyRouter answers GET with 404 while the filter lists GET: the
+    model's observation falsifies `c17Holds` although one root matches, the path is normal and no
+    panic is possible — the table is outside the common fragment (`wfCommon = false`), which is why
+    `C17_holds_curly_partial` keeps `wfCommon`.  Under RouterJSR311 the same table is covered by
+    `C17_holds_jsr_partial` (GET runs the route). -/
+def wild (k : RouterKind) : Config :=
+  { router := k, services := [{ id := 0, root := "/a".toList, routes := [rt 1 "GET" "/{t:*}"] }] }
+
+theorem C17_F20_witness :
+    let req : Req := { method := "OPTIONS".toList, path := "/a/".toList }
+    let ms : List Str := ["GET".toList, "OPTIONS".toList]
+    (wild .curly).wfTemplates = true ∧ Curly.rootsRead (wild .curly) = true ∧ Spec.wfCommon (wild .curly) = false ∧
+    Spec.rootsDistinct (wild .curly) = true ∧ Spec.rootsClean (wild .curly) = true ∧ Spec.normalPath req.path = true ∧
+    Spec.severalRootsMatch E0 (wild .curly) req.path = false ∧
+    (Spec.modelObs E0 (wild .curly) req ms).probes = [("GET".toList, 404, none), ("OPTIONS".toList, 404, none)] ∧
+    (Spec.modelObs E0 (wild .curly) req ms).optAllow = ["GET".toList] ∧
+    Spec.c17Holds (Spec.modelObs E0 (wild .curly) req ms) = false ∧
+    (Spec.modelObs E0 (wild .jsr) req ms).probes = [("GET".toList, 200, none), ("OPTIONS".toList, 405, some ["GET".toList])] ∧
+    Spec.c17Holds (Spec.modelObs E0 (wild .jsr) req ms) = true := by
+  decide
+
+/-- … and that last line is an instance of the theorem (tail wildcard, RouterJSR311) -/
+example : Spec.c17Holds (Spec.modelObs E0 (wild .jsr) { method := "OPTIONS".toList, path := "/a/".toList }
+    ["GET".toList, "OPTIONS".toList]) = true :=
+  (C17_holds_jsr_partial E0 (wild .jsr) rfl (by decide) (by decide) _ (by decide) (by decide) _ (by decide) (by decide)).1
+
+end Restful.C17Holds
